@@ -48,7 +48,7 @@ class DictOf(SpecType):
   def __init__(s,key=None,val=None,default=None): s.key=key or ObjK(); s.val=val or ObjK(); s.default=default
   def make(s,name,st,fresh):
     r=st.alloc('dict'); sfx=f"!{st.nextid[0]}" if fresh else ''; st.nextid[0]+=1
-    vs=SetSort if isinstance(s.val,SetOf) else Obj
+    vs=SetSort if isinstance(s.val,SetOf) else z3.IntSort() if isinstance(s.val,IntT) else Obj
     st.heap[(r.id,'dom')]=z3.Const(f"{name}.dom{sfx}",SetSort)
     st.heap[(r.id,'val')]=z3.Const(f"{name}.val{sfx}",z3.ArraySort(Obj,vs))
     st.heap[(r.id,'key')]=s.key; st.heap[(r.id,'vt')]=s.val; st.heap[(r.id,'default')]=s.default
@@ -80,6 +80,7 @@ def to_obj(v,st):
   raise Unsupported(f"collection element {v!r}")
 
 def from_obj(t,typ,st):
+  if t.sort()==z3.IntSort(): return I(t)
   if isinstance(typ,PairOf): return Tup([from_obj(Obj.fst(t),typ.a,st),from_obj(Obj.snd(t),typ.b,st)])
   if isinstance(typ,IntT): return I(Obj.ival(t))
   if isinstance(typ,ObjK): return Opq(t,typ.kind)
@@ -94,7 +95,7 @@ def wf(t,typ):
 def setval(v,st):
   """(array, elemtype) of a set-like value."""
   if isinstance(v,SetV): return v.arr,v.elem
-  if isinstance(v,Ref) and v.cls=='set': return st.heap[(v.id,'arr')],st.heap[(v.id,'elem')]
+  if isinstance(v,Ref) and v.cls in('set','setlist') and (v.id,'arr') in st.heap: return st.heap[(v.id,'arr')],st.heap.get((v.id,'elem'))
   if isinstance(v,Ref) and v.cls=='dict': return st.heap[(v.id,'dom')],st.heap[(v.id,'key')]
   if isinstance(v,DictSlot): return slot_arr(v,st),v.elem
   if isinstance(v,DictV): return v.dom,v.kt
@@ -128,7 +129,7 @@ class SymColl:
     k=to_obj(idx,st); vt=st.heap[(o.id,'vt')]
     st2=st.fork(); st2.heap[(o.id,'dom')]=z3.Store(st.heap[(o.id,'dom')],k,True)
     if isinstance(v,DictSlot) and v.d.id==o.id: yield st2,None; return     # d[k] op= x : already written back
-    nv=setval(v,st)[0] if isinstance(vt,SetOf) else to_obj(v,st)
+    nv=setval(v,st)[0] if isinstance(vt,SetOf) else as_int(v) if isinstance(vt,IntT) else to_obj(v,st)
     st2.heap[(o.id,'val')]=z3.Store(st.heap[(o.id,'val')],k,nv); yield st2,None
   def delitem(s,ex,o,idx,st):
     k=to_obj(idx,st); dom=st.heap[(o.id,'dom')]
@@ -155,6 +156,10 @@ class SymColl:
         r=st.alloc('set',{'arr':arr,'elem':et}); yield st,r
       elif m=='clear': st2=st.fork(); st2.heap[(o.id,'arr')]=EMPTY; yield st2,NONE
       elif m=='__contains__': yield from s.contains(ex,o,args[0],st,False)
+      elif m=='__len__':
+        st2=st.fork()
+        for f in card_facts(arr): st2.pc.append(f)
+        yield st2,I(CARD(arr))
       else: raise Unsupported(f"set.{m}")
       return
     dom=st.heap[(o.id,'dom')]; val=st.heap[(o.id,'val')]; vt=st.heap[(o.id,'vt')]; kt=st.heap[(o.id,'key')]
@@ -192,7 +197,7 @@ def slot_arr(v,st): return z3.Select(st.heap[(v.d.id,'val')],v.k)
 
 class SlotOps:
   """in-place operators on d[k] (set-valued dict entries)."""
-  METHODS={'__ior__','__isub__','__iand__','add','discard','__contains__','update'}
+  METHODS={'__ior__','__isub__','__iand__','add','discard','__contains__','update','append'}
   def handles(s,o,st): return False
   @staticmethod
   def apply(ex,slot,m,args,st):
@@ -201,6 +206,10 @@ class SlotOps:
     elif m=='__isub__': new=z3.SetDifference(cur,setval(args[0],st)[0])
     elif m=='__iand__': new=z3.SetIntersect(cur,setval(args[0],st)[0])
     elif m=='add': new=z3.Store(cur,to_obj(args[0],st),True)
+    elif m=='append':
+      x=to_obj(args[0],st)
+      st.vcs.append(('setlist-nodup',f"append@{ex.cur_line}",list(st.pc),z3.Not(z3.Select(cur,x)),st))
+      new=z3.Store(cur,x,True)
     elif m=='discard': new=z3.Store(cur,to_obj(args[0],st),False)
     else: raise Unsupported(f"operation {m} on a dict entry")
     st2=st.fork(); st2.heap[(d.id,'val')]=z3.Store(val,slot.k,new)
@@ -214,6 +223,9 @@ def for_loop(ex,node,it,st):
   elif isinstance(it,Ref) and it.cls=='dict' and (it.id,'dom') in st.heap: d=it; mode='keys'
   elif isinstance(it,Ref) and it.cls=='set' and (it.id,'arr') in st.heap: d=it; mode='set'
   elif isinstance(it,DictSlot): d=it; mode='slot'
+  elif isinstance(it,Ref) and it.cls=='setlist': d=it; mode='set'
+  elif isinstance(it,SetV):
+    d=st.alloc('set',{'arr':it.arr,'elem':it.elem or ObjK()}); mode='set'
   else: return None
   if spec is None: raise Unsupported(f"loop at line {node.lineno} over a symbolic collection has no invariant in the sidecar")
   return _for_loop(ex,node,d,mode,spec,st)
@@ -231,6 +243,7 @@ def _for_loop(ex,node,d,mode,spec,st):
   st1=st.fork()
   ex.havoc_locals(st1,{n for n in ex.assigned_names(node.body) if n in st1.env and isinstance(st1.env[n],(I,B))})
   for loc in spec.modifies: havoc_loc(ex,loc,st1)
+  havoc_ghost(spec,st1)
   seen=z3.Const(f"seen!{st1.nextid[0]}",SetSort); st1.nextid[0]+=1
   st1.pc.append(z3.IsSubset(seen,dom0))
   st1=with_seen(st1,seen)
@@ -265,12 +278,18 @@ def havoc_loc(ex,loc,st):
   """havoc a heap location named by a dotted path from a local, e.g. 's._dsl.all_upblk_hostobj'."""
   parts=loc.split('.'); cur=st.env[parts[0]]
   for p in parts[1:]: cur=st.heap[(cur.id,p)]
-  if isinstance(cur,Ref) and cur.cls=='set':
+  if isinstance(cur,Ref) and cur.cls in('set','setlist'):
     st.heap[(cur.id,'arr')]=z3.Const(f"{loc}@loop!{st.nextid[0]}",SetSort); st.nextid[0]+=1
   elif isinstance(cur,Ref) and cur.cls=='dict':
     st.heap[(cur.id,'dom')]=z3.Const(f"{loc}.dom@loop!{st.nextid[0]}",SetSort)
     st.heap[(cur.id,'val')]=z3.Const(f"{loc}.val@loop!{st.nextid[0]}",st.heap[(cur.id,'val')].sort()); st.nextid[0]+=1
+  elif len(parts)==2 and isinstance(st.heap.get((st.env[parts[0]].id,parts[1])),(I,type(None))):
+    st.heap[(st.env[parts[0]].id,parts[1])]=I(st.fresh_int(f"{loc}@loop"))
   else: raise Unsupported(f"havoc of {loc}")
+
+def havoc_ghost(spec,st):
+  for g in getattr(spec,'ghost',()):
+    v=st.env[g]; st.env[g]=type(v)(z3.Const(f"{g}@loop!{st.nextid[0]}",v.arr.sort())); st.nextid[0]+=1
 
 # ---------------------------------------------------------------------------------- contract language
 def _dv(d,st):
@@ -305,7 +324,7 @@ SPEC_FORMS['exists']=lambda s,e,st: _form_forall(s,e,st,True)
 
 def install(reg):
   """hook the collection semantics into an executor registry."""
-  reg.handlers.append(SymColl()); reg.handlers.append(ByteArr())
+  reg.handlers.append(SymColl()); reg.handlers.append(ByteArr()); reg.handlers.append(SetList())
   reg.loop_handlers.append(lambda ex,node,it,st: for_loop(ex,node,it,st) if it is not None else None)
 
 # ---------------------------------------------------------------------------------- bytearray
@@ -390,3 +409,68 @@ def _form_forall_int(s,e,st):
   t=list(s.truth(rs[0][1],st2))[0][1]
   yield st,B(z3.ForAll(vs,t))
 SPEC_FORMS['forall_int']=_form_forall_int
+
+# ================================================================================== extensions for scheduler code (Kahn loops)
+CARD=z3.Function('card',SetSort,z3.IntSort())
+
+def card_facts(S):
+  """ground facts about the cardinality of a finite set term S (Python sets are finite)."""
+  return [CARD(S)>=0,(CARD(S)==0)==(S==EMPTY)]
+def card_add(S,x):
+  S2=z3.Store(S,x,True)
+  return [z3.If(z3.Select(S,x),CARD(S2)==CARD(S),CARD(S2)==CARD(S)+1)]+card_facts(S2)
+def card_del(S,x):
+  S2=z3.Store(S,x,False)
+  return [z3.If(z3.Select(S,x),CARD(S2)==CARD(S)-1,CARD(S2)==CARD(S))]+card_facts(S2)
+
+class Mod(Val):
+  """an imported module object (only a few attributes are modelled)."""
+  def __init__(s,name): s.name=name
+  def __repr__(s): return f"Mod({s.name})"
+
+class SetList:
+  """a duplicate-free Python list whose order the code does not depend on (shuffled / consumed from an arbitrary end):
+  represented by its element set.  append(x) carries the obligation x not in list (so duplicate-freeness is proved, not assumed)."""
+  METHODS={'append','pop','__len__','__contains__','copy'}
+  def handles(s,o,st): return isinstance(o,Ref) and o.cls=='setlist'
+  def has_method(s,m): return m in s.METHODS
+  def contains(s,ex,o,x,st,negate):
+    t=z3.Select(st.heap[(o.id,'arr')],to_obj(x,st)); yield st,B(z3.Not(t) if negate else t)
+  def getitem(s,ex,o,idx,st): raise Unsupported("indexing a list that is abstracted by its element set")
+  def setitem(s,ex,o,idx,v,st): raise Unsupported("item store on a list that is abstracted by its element set")
+  def call(s,ex,o,m,args,kw,st):
+    arr=st.heap[(o.id,'arr')]
+    if m=='append':
+      x=to_obj(args[0],st)
+      st.vcs.append(('setlist-nodup',f"append@{ex.cur_line}",list(st.pc),z3.Not(z3.Select(arr,x)),st))
+      st2=st.fork(); st2.heap[(o.id,'arr')]=z3.Store(arr,x,True)
+      for f in card_add(arr,x): st2.pc.append(f)
+      yield st2,NONE
+    elif m=='pop':
+      if args: raise Unsupported("pop(i) on an abstracted list")
+      for st1,empty in ex.branch(st,arr==EMPTY):
+        if empty: yield st1,Exc('IndexError','pop from empty list'); continue
+        e=z3.Const(f"popped!{st1.nextid[0]}",Obj); st1.nextid[0]+=1
+        st2=st1.fork(z3.Select(arr,e)); st2.heap[(o.id,'arr')]=z3.Store(arr,e,False)
+        for f in card_del(arr,e): st2.pc.append(f)
+        yield st2,from_obj(e,st2.heap.get((o.id,'elem')),st2)
+    elif m=='__len__':
+      st2=st.fork()
+      for f in card_facts(arr): st2.pc.append(f)
+      yield st2,I(CARD(arr))
+    elif m=='__contains__': yield from s.contains(ex,o,args[0],st,False)
+    elif m=='copy': yield st,st.alloc('setlist',{'arr':arr,'elem':st.heap.get((o.id,'elem'))})
+    else: raise Unsupported(f"list.{m} on an abstracted list")
+
+def new_setlist(st,arr=None,elem=None):
+  return st.alloc('setlist',{'arr':EMPTY if arr is None else arr,'elem':elem or ObjK()})
+
+def _sf_card(s,args,st):
+  a,_=setval(args[0],st) if not (isinstance(args[0],Ref) and args[0].cls=='setlist') else (st.heap[(args[0].id,'arr')],None)
+  return I(CARD(a))
+def _sf_elems(s,args,st):
+  o=args[0]
+  if isinstance(o,Ref) and o.cls=='setlist': return SetV(st.heap[(o.id,'arr')],st.heap.get((o.id,'elem')))
+  return SetV(setval(o,st)[0],None)
+SPEC_FUNS.update({'card':_sf_card,'elems':_sf_elems})
+_rt.NATIVE.update(card=lambda s: len(set(s)), elems=lambda l: set(l))
